@@ -26,6 +26,9 @@ Inductive pipe_item := PShutdown | PExit | PEof.
 
 Inductive main_pc :=
   | MLoop            (* main_loop: `for msg in &connection.receiver` *)
+  | MAnalysing       (* handle_message of a notification that takes long (re-analysis of a big edit); the context lock is held *)
+  | MInvokeBlockedShutdown   (* `shutdown` arm: in `sender.send(())` on a rendezvous handler channel; the context lock is held *)
+  | MInvokeBlockedJoin       (* DebugServer::join: the same, inside `self.lsp.lock()` *)
   | MShutdownWait    (* handle_shutdown: response sent, recv_timeout(30 s) for `exit` *)
   | MAfterLoop       (* main_loop returned: its Arc<Connection> is gone *)
   | MIoJoinReader    (* IoThreads::join: reader.join() *)
@@ -39,6 +42,7 @@ Inductive dbg_pc :=
   | DAccept          (* DebugSession::start -> DebugConnection::tcp: bound, blocked in accept() *)
   | DRegister        (* accepted; about to call add_shutdown_handler *)
   | DSelect          (* in the select loop *)
+  | DRequest         (* inside a DAP request handler that needs the LSP context (`launch`: conn.lock_lsp()), waiting for the lock *)
   | DExited          (* thread function returned *)
   | DPanicked.       (* thread died by a panic *)
 
@@ -74,7 +78,8 @@ Record variant := mkVariant {
   v_select_completes : bool;      (* the shutdown arm of the select completes the selected operation (oper.recv) *)
   v_register_before_accept : bool; (* add_shutdown_handler is called before the blocking accept *)
   v_join_tolerates_dead : bool;   (* DebugServer::join logs a debug thread that died by panic instead of `expect`ing *)
-  v_recovers_poison : bool        (* the LSP side takes the context out of a poisoned lock instead of unwrapping the LockResult *)
+  v_recovers_poison : bool;       (* the LSP side takes the context out of a poisoned lock instead of unwrapping the LockResult *)
+  v_handler_rendezvous : bool     (* add_shutdown_handler: crossbeam_channel::bounded(0) (send blocks until received) vs bounded(n >= 1) *)
 }.
 
 (* strong count of Arc<Mutex<LspContext>>: LspServer + DebugServer.lsp + (thread closure + its current DebugSession) *)
@@ -97,6 +102,18 @@ Definition invoke_shutdown_handlers (s : state) : state :=
     mkState (st_script s) (st_pipe s) (st_main s) (st_reader_done s) (st_writer_done s) (st_ctx_conn s) (st_tmp_conn s) (st_dbg s)
             (st_flag s) false true (st_client s) (st_wake s) (st_machine s) (st_poisoned s) (st_expect s)
   else s.
+
+(* the Mutex<LspContext> is held by the main thread for the whole of handle_message (so also while handle_shutdown waits for
+   `exit`) and while DebugServer::join invokes the handlers; the debug thread takes it only inside request handlers *)
+Definition main_holds_lock (s : state) : bool :=
+  match st_main s with MAnalysing | MShutdownWait | MInvokeBlockedShutdown | MInvokeBlockedJoin => true | _ => false end.
+
+(* invoke_shutdown_handlers as seen by its caller: with a rendezvous channel `send` returns only when the session thread is
+   in its select; `next` is where the caller goes on, `blocked` where it sits until then *)
+Definition invoke_or_block (v : variant) (s : state) (next blocked : main_pc) : state :=
+  if st_registered s && v_handler_rendezvous v && negb (match st_dbg s with DSelect => true | _ => false end)
+  then set_main s blocked
+  else invoke_shutdown_handlers (set_main s next).
 
 (* ------------------------------------------------------------------ the environment *)
 Definition env_steps (s : state) : list state :=
@@ -136,11 +153,19 @@ Definition main_steps (v : variant) (s : state) : list state :=
       else match st_pipe s with
            | PShutdown :: _ =>
                (* handle_message: invoke_shutdown_handlers, then handle_shutdown sends the response and waits *)
-               [invoke_shutdown_handlers (pop_pipe s MShutdownWait false)]
+               [invoke_or_block v (pop_pipe s MLoop false) MShutdownWait MInvokeBlockedShutdown]
            | PExit :: _ => [pop_pipe s MLoop true]               (* unknown notification; the reader breaks after `exit` *)
            | PEof :: _ => [pop_pipe s MLoop true]                (* Message::read -> None: the reader returns *)
            | [] => []
            end
+  | MAnalysing => [set_main s MLoop]                              (* handle_message returns, the lock is released *)
+  | MInvokeBlockedShutdown =>
+      (* the send completes when the session receives, or fails (ignored) when its receiver is gone *)
+      if negb (st_registered s) then [set_main s MShutdownWait]
+      else (match st_dbg s with DSelect => [invoke_shutdown_handlers (set_main s MShutdownWait)] | _ => [] end)
+  | MInvokeBlockedJoin =>
+      if negb (st_registered s) then [set_main s MDbgWait]
+      else (match st_dbg s with DSelect => [invoke_shutdown_handlers (set_main s MDbgWait)] | _ => [] end)
   | MShutdownWait =>
       match st_pipe s with
       | PExit :: _ => [pop_pipe s MLoop true]                    (* handle_shutdown -> Ok(true); back in the loop *)
@@ -176,7 +201,7 @@ Definition main_steps (v : variant) (s : state) : list state :=
           if v_join_wakes v then
             (* while !thread.is_finished() { invoke_shutdown_handlers(); TcpStream::connect(port); sleep } --
                only the iterations that change something are steps *)
-            (if st_registered s then [invoke_shutdown_handlers s] else []) ++
+            (if st_registered s then [invoke_or_block v s MDbgWait MInvokeBlockedJoin] else []) ++
             (match st_dbg s with
              | DAccept => if st_wake s then [] else
                  [mkState (st_script s) (st_pipe s) (st_main s) (st_reader_done s) (st_writer_done s) (st_ctx_conn s) (st_tmp_conn s)
@@ -191,7 +216,7 @@ Definition main_steps (v : variant) (s : state) : list state :=
 (* ------------------------------------------------------------------ the stdio writer thread *)
 Definition writer_steps (s : state) : list state :=
   if st_writer_done s then []
-  else if st_ctx_conn s || st_tmp_conn s || (match st_main s with MLoop | MShutdownWait => true | _ => false end) then []
+  else if st_ctx_conn s || st_tmp_conn s || (match st_main s with MLoop | MAnalysing | MInvokeBlockedShutdown | MShutdownWait => true | _ => false end) then []
   else  (* every Sender is gone: writer_receiver.into_iter() ends *)
     [mkState (st_script s) (st_pipe s) (st_main s) (st_reader_done s) true (st_ctx_conn s) (st_tmp_conn s) (st_dbg s)
              (st_flag s) (st_registered s) (st_signalled s) (st_client s) (st_wake s) (st_machine s) (st_poisoned s) (st_expect s)].
@@ -235,6 +260,9 @@ Definition dbg_steps (v : variant) (s : state) : list state :=
          else [set_dbg s DPanicked]          (* "dropped `SelectedOperation` without completing the operation" *)
        else []) ++
       (match st_client s with CClosed | CClosedPending => [end_session s] | _ => [] end)   (* oper.recv(receiver) -> Err: break *)
+  | DRequest =>
+      (* the handler gets the lock as soon as the main thread does not hold it, does its work and returns to the select loop *)
+      if main_holds_lock s then [] else [set_dbg s DSelect]
   | DExited | DPanicked => []
   end.
 
@@ -302,21 +330,29 @@ Definition all_machines : list machine := [MachNone; MachRunning; MachPaused].
 (* the session states of the property: no debugger / attached and idle / test running / test paused *)
 Definition session_states : list (bool * machine) :=
   [(false, MachNone); (true, MachNone); (true, MachRunning); (true, MachPaused)].
+(* a debugger is attached and its `launch` request is in flight: the session thread waits for the context lock, which the
+   main thread holds while it re-analyses a big edit; the editor's script starts now *)
+Definition initial_launch (script : list action) : state :=
+  mkState script [] MAnalysing false false true false DRequest false true false CConnected false MachNone false (spec_exit_code script).
 Definition live_initial : list state :=
   flat_map (fun sm => map (initial (fst sm) (snd sm)) all_scripts) session_states.
 Definition all_initial : list state :=
   live_initial ++
   map (initial_dead false) all_scripts ++ map (initial_dead true) all_scripts.
+(* swept separately (proofs/LifeProofs3.v): the seventh session state, a `launch` in flight *)
+Definition launch_initial : list state := map initial_launch all_scripts.
 
 Definition clean_exit (s : state) : bool :=
   match st_main s with MExited c => Nat.eqb c (st_expect s) | _ => false end.
 
 (* the code as it was on the pinned tree, the intermediate repairs, and the complete repair *)
-Definition v_pinned : variant := mkVariant true false false false false false false.
-Definition v_take_only : variant := mkVariant false false false false false false false.       (* unwrap replaced, nothing else *)
-Definition v_take_drop : variant := mkVariant false true false false false false false.        (* + sender dropped before the IO join *)
-Definition v_take_drop_wake : variant := mkVariant false true true false false false false.    (* + join wakes the thread *)
-Definition v_first_repair : variant := mkVariant false true true true false false false.       (* + select arm completes (051876a) *)
-Definition v_repaired : variant := mkVariant false true true true false true true.             (* + dead thread / poisoned lock tolerated *)
+Definition v_pinned : variant := mkVariant true false false false false false false false.
+Definition v_take_only : variant := mkVariant false false false false false false false false.       (* unwrap replaced, nothing else *)
+Definition v_take_drop : variant := mkVariant false true false false false false false false.        (* + sender dropped before the IO join *)
+Definition v_take_drop_wake : variant := mkVariant false true true false false false false false.    (* + join wakes the thread *)
+Definition v_first_repair : variant := mkVariant false true true true false false false false.       (* + select arm completes (051876a) *)
+Definition v_repaired : variant := mkVariant false true true true false true true false.             (* + dead thread / poisoned lock tolerated *)
 (* everything except the wake-up, with the shutdown handler registered before the blocking accept instead *)
-Definition v_register_first : variant := mkVariant false true false true true true true.
+Definition v_register_first : variant := mkVariant false true false true true true true false.
+(* the repaired code with a rendezvous handler channel *)
+Definition v_rendezvous : variant := mkVariant false true true true false true true true.
